@@ -547,7 +547,14 @@ func (c *candidateBase) Equal(other Candidate) bool {
 
 // DeepEqual is same as Equal but also compares the extensions.
 func (c *candidateBase) DeepEqual(other Candidate) bool {
-	return c.Equal(other) && c.extensionsEqual(other.Extensions())
+	if !c.Equal(other) {
+		return false
+	}
+
+	// Extensions() reports the TCP type as an extension, so compare like with like on both sides.
+	mine := candidateBase{extensions: c.Extensions()}
+
+	return mine.extensionsEqual(other.Extensions())
 }
 
 // String makes the candidateBase printable.
